@@ -1003,7 +1003,7 @@ func (m *Model) closureFrame(K *ssa.Function) *frame {
 func (m *Model) writeUnits(e *termEval) []*writeUnit {
 	var out []*writeUnit
 	for _, tc := range m.txnClosures() {
-		if tc.Fn == m.A.AllocClos {
+		if tc.Fn == m.A.AllocClos || tc.Fn == m.A.AllocOuter {
 			continue
 		}
 		K := tc.Fn
